@@ -169,3 +169,13 @@ Definition raw_0x : list N := mk_raw [("35","0X");("49","SRV");("56","CLI");("34
 Definition ops_0x : list op := [start_I; OIn [logon "1"]; OIn [raw_0x]].
 Definition drop_delivers (tr : trace) : trace :=
   map (fun st => mkStep (filter (fun e => negb (is_deliver e)) (st_events st)) (st_snap st)) tr.
+
+(* a MsgSeqNum written with a leading zero: `34=010` (a VALUE with leading zeros is inside the domain of the
+   full-strength theorems: tok_ok19 asks for canonical TAGS and SOH-free values only; the gating number and the
+   decoded field are the same decimal reading of the same text) *)
+Definition start_I_rs (n : N) : op :=
+  OStart (mkStart Initiator PMem (b "CLI") (b "SRV") (mkParams false true false false []) 30 0 n) None.
+Definition s_exp10 : sess := sess_after [start_I_rs 9; OIn [logon "9"]].     (* continuous, expects 10 *)
+Definition s_exp8 : sess := sess_after [start_I_rs 7; OIn [logon "7"]].      (* continuous, expects 8 *)
+Definition raw_pad : list N := order_msg "010" [].
+Definition toks_pad : list (list N * list N) := tokens raw_pad.
